@@ -138,10 +138,16 @@ def main():
         "engines": [
             {"name": "tlc", "path": "spec/ + harness/ + lib/", "serves_properties": sorted(CHECKS),
              "kind_free_text": "TLA+ specifications checked with TLC: exhaustive model checking of bounded configs, export of cells/behaviours replayed into the Rust code, and trace validation of ndjson records written by the harness at the return of real library calls and binaries"},
+            {"name": "apalache", "path": "spec/CbEpoch.tla spec/RunUnwrap.tla", "serves_properties": ["C19", "C20"],
+             "kind_free_text": "inductive invariants for the epoch and unwrap arithmetic at the real widths (thorough tiers)"},
         ],
         "checks": checks,
         "not_applicable": na,
-        "notes": "Levels and what each check covers are explained per property in DESIGN.md §4; known findings in known_findings.json.",
+        "notes": ("Levels and what each check covers are explained per property in DESIGN.md §4; known findings in "
+                  "known_findings.json. Beyond the listed properties the specification also covers the wire/pad matching "
+                  "stage and the composition of MainEvent::avalanches() (./check XMATCH quick|thorough, Matching.tla) and "
+                  "the sequencer / ODB programs (./check XSEQ quick|thorough, SeqCsv.tla); these extension checks follow the "
+                  "same exit-code contract, write evidence under evidence/ext/ and are described in DESIGN.md §4b."),
     }
     with open(os.path.join(VERIF, "MANIFEST.json"), "w") as f:
         json.dump(m, f, indent=1)
